@@ -144,22 +144,34 @@ theorem frame_safe_tables (rows : List RegistryRec) (hs : SafeTables rows) : C15
 theorem tables_ok : ∀ r ∈ Generated.registries, r.safe = true ∨ r.findingKey ∈ Generated.knownFindingKeys := by
   decide +kernel
 
-/-- the switches the model runs with are those of the tree it was aligned with -/
-theorem config_pinned : configOf Generated.registries = configOf Pinned.registries := by
-  decide +kernel
+/-- switch-wise implication: every finding switch that is on in `a` is on in `b` -/
+def Config.le (a b : Config) : Bool :=
+  (!a.wrapperByName || b.wrapperByName) && (!a.mapperByName || b.mapperByName) &&
+  (!a.simplicityByName || b.simplicityByName) && (!a.schemaWritesRequired || b.schemaWritesRequired) &&
+  (!a.serializerOnBase || b.serializerOnBase)
 
-/-- the configuration of the current tree: wrapper registry name-keyed, `_required` written in place -/
+/-- the configuration with exactly the two known findings: wrapper registry name-keyed, `_required`
+    written in place (what the pinned table says) -/
 def currentCfg : Config := ⟨true, false, false, true, false⟩
 
-theorem current_config : configOf Generated.registries = currentCfg := by decide +kernel
+theorem pinned_config : configOf Pinned.registries = currentCfg := by decide +kernel
+
+/-- the current tree has no finding switch on beyond those of the pinned tree (a repair of a finding
+    keeps this true, a new hole does not) -/
+theorem config_no_worse : Config.le (configOf Generated.registries) (configOf Pinned.registries) = true := by
+  decide +kernel
+
+/-- the caches of the current tree are identity-keyed and `create_serializer` writes onto `cls` itself -/
+theorem current_caches_by_id : (configOf Generated.registries).cachesById = true := by decide +kernel
 
 /-- what holds of the current tree: the frame property for every history that wraps no two different
-    same-named user classes and in which structure_to_schema changes no `_required` -/
+    same-named user classes (while the wrapper registry is name-keyed) and in which structure_to_schema
+    changes no `_required` (while it writes in place) -/
 theorem C15_partial (T : ClassId → Bool) (h : List WorldOp) (hx : Excluded (configOf Generated.registries) h)
     (hcl : closed T h = true) (c : ClassId) (hT : T c = true) :
     view (configOf Generated.registries) (runW (configOf Generated.registries) World.initial h) c
       = view (configOf Generated.registries) (runW (configOf Generated.registries) World.initial (slice T h)) c :=
-  frame _ (by rw [current_config]; rfl) T h hx hcl c hT
+  frame _ current_caches_by_id T h hx hcl c hT
 
 /-! ### counterexamples (the known findings), kernel-checked on the current configuration -/
 
@@ -198,9 +210,8 @@ theorem required_counterexample :
     ∧ (stepW currentCfg (runW currentCfg World.initial [.define 0 clsS, .define 1 clsD]) (.construct 1 [])).2.accepted = false := by
   decide +kernel
 
-/-- the full statement is false of the current tree -/
-theorem C15_statement_fails_today : ¬ C15_statement (configOf Generated.registries) := by
-  rw [current_config]
+/-- the full statement is false of the code with the two known findings -/
+theorem C15_statement_fails_with_findings : ¬ C15_statement currentCfg := by
   intro h
   exact registry_counterexample.1 (h (fun d => d == 1) hReg 1 (by decide +kernel) (by decide +kernel))
 
